@@ -68,8 +68,7 @@ Proof. vm_compute. repeat split; reflexivity. Qed.
    instruction vector with its block stack and the two pending-probe maps) and [emit] the mirror of the encoder's
    plain lowering; the correspondence run ties both to /repo on every check.  For every flat body that parses,
    every flag assignment without replacements in the fragment [okI] (plain instructions are not structural, no
-   semantic-after on branch instructions, no block-exit on an `if` whose then-arm contains a construct: the shapes
-   of D16-D18 and D15), every entry code and exit code X: the code the mirror emits IS the flattening of a tree on
+   semantic-after on branch instructions: the shapes of D16-D18), every entry code and exit code X: the code the mirror emits IS the flattening of a tree on
    which the plain Wasm interpreter reproduces every outcome of the probe-semantics interpreter [exec_fn .. true]
    (results, globals, event trace, traps). *)
 Theorem C17_emitted_code_simulates_the_probe_semantics :
@@ -93,6 +92,10 @@ Theorem C17_tree_tie_follows_from_the_correspondence :
   forall (c : scase) b g g', model (s_l c) = Some (b, g) -> c_obs (s_l c) = Some (b, g') -> tree_tie c = true.
 Proof. exact tree_tie_of_model. Qed.
 Print Assumptions C17_tree_tie_follows_from_the_correspondence.
-(* outside the fragment the equation is false of the faithful mirror (D15) *)
-Example C17_flatten_false_on_D15 : True.
-Proof. pose proof resolve_flatten_false_on_D15. exact I. Qed.
+(* the shape of the former D15 (block-exit on an `if` whose then-arm contains a construct) is inside the theorem:
+   the pending exit code is keyed by the if's own block id *)
+Example C17_flatten_former_D15_witness_holds :
+  frag exF exD15 /\
+  emit (fst (resolve true [] [] 0%N (flatF exF exD15 ++ [(FEnd, exF 10)]) (mkLocals 0 0 [])))
+  = flat (flat_map (lower exF []) exD15) ++ f_before (exF 10) ++ [FEnd].
+Proof. exact resolve_flatten_former_D15_witness_holds. Qed.
